@@ -187,6 +187,13 @@ func gen(r *vu.Rng, i int) []string {
 		}
 		ow := []string{"T", "T", "T", "T", "-", "-", "F", "F", "X", "T"}[r.Intn(10)]
 		depth := []string{"-", "-", "-", "-", "-", "-", "infinity", "infinity", "0", "0", "1", "bad"}[r.Intn(12)]
+		// COPY with Depth infinity into a destination two or more levels below the source
+		// re-reads directories it has just created and runs into copyFiles' recursion limit
+		// (1000 nested collections, status 500; the TODO in copyFiles). The model follows it
+		// (fuel 1000) but at a cost that does not fit a differential run: not generated.
+		if method == "copy" && len(dst) >= len(src)+2 && isPrefix(src, dst) && (depth == "-" || depth == "infinity") {
+			depth = "0"
+		}
 		ift := "-"
 		if nlocks > 0 && r.Chance(2, 3) {
 			var idx []string
@@ -207,4 +214,16 @@ func gen(r *vu.Rng, i int) []string {
 		ops = append(ops, fmt.Sprintf("%s p:%s %s p:%s %s %s %s", method, srcRaw, host, dstRaw, ow, depth, ift))
 	}
 	return ops
+}
+
+func isPrefix(a, b []string) bool {
+	if len(a) > len(b) {
+		return false
+	}
+	for i := range a {
+		if a[i] != b[i] {
+			return false
+		}
+	}
+	return true
 }
